@@ -52,7 +52,7 @@ struct Obj {
 	std::deque<int64_t> jdl;             // iteration by which each must have run
 	int readd = 0;                       // C10: re-add this many copies on every invocation
 	// timer
-	qb_loop_timer_handle th = 0; bool tpend = false; int tprio = 0;
+	qb_loop_timer_handle th = 0; bool nohandle = false; bool tpend = false; int tprio = 0;
 	u128 expiry = 0; bool unrep = false; uint64_t dur = 0; int64_t first_iter_expired = -1; int64_t tdl = -1;
 	bool rearm = false; uint64_t rearm_dur = 0;
 	std::vector<qb_loop_timer_handle> stale;   // handles that fired or were deleted
@@ -106,7 +106,7 @@ static St *Lp;
 
 static int p_del_queued_timer, p_del_queued_fd, p_del_queued_job, p_del_queued_sig, p_self_del, p_readd_in_cb, p_stale_handle,
 	p_slot_reuse_stale, p_fd_reuse, p_two_sig_then_del, p_retneg, p_retneg_open, p_close_retneg, p_number_reused_in_cb, p_default_loop, p_sig_mod, p_fd_mod_data, p_stop, p_throttle50, p_ms31, p_ms32, p_overflow, p_equal_expiry,
-	p_timer_fired, p_long_run, p_eintr_epoll, p_eintr_retry, p_async_sig, p_hup, p_busy;
+	p_timer_fired, p_nohandle, p_long_run, p_eintr_epoll, p_eintr_retry, p_async_sig, p_hup, p_busy;
 
 static void init(const char *prop)
 {
@@ -137,6 +137,7 @@ static void init(const char *prop)
 	p_timer_fired = counter_id("probe", "timer_dispatched");
 	p_long_run = counter_id("probe", "run_longer_than_1000_iterations");
 	p_eintr_epoll = counter_id("probe", "epoll_wait_eintr");
+	p_nohandle = counter_id("probe", "timer_added_without_asking_for_a_handle");
 	p_eintr_retry = counter_id("stat", "epoll_wait_restarted_by_the_driver_after_eintr");
 	p_async_sig = counter_id("probe", "signal_delivered_inside_loop_code");
 	p_hup = counter_id("probe", "fd_peer_closed");
@@ -274,7 +275,8 @@ static void timer_cb(void *data)
 			     o.id, (long long)(L.iter - o.first_iter_expired), (long long)(o.tdl - o.first_iter_expired));
 	}
 	o.tpend = false;
-	o.stale.push_back(o.th);
+	if (!o.nohandle) o.stale.push_back(o.th);
+	o.nohandle = false;
 	o.invoked++;
 	if (o.rearm && !L.stopped) {
 		qb_loop_timer_handle h = 0;
@@ -447,7 +449,10 @@ static void do_op(size_t oi, int from_obj)
 		// durations whose millisecond value needs more than 30 bits are C09's subject (timeout arithmetic), keep them out of C08/C10
 		if (which != 9) dur %= (1ULL << 30) * 1000000ULL;
 		qb_loop_timer_handle h = 0;
-		int r = qb_loop_timer_add(LP, (enum qb_loop_priority)prio, dur, new_cookie(o), timer_cb, &h);
+		// "timer_handle_out: handle to delete the timer if needed": one timer in eleven is added without asking for one
+		o.nohandle = ((dur >> 3) % 11) == 3;
+		if (o.nohandle) count(p_nohandle);
+		int r = qb_loop_timer_add(LP, (enum qb_loop_priority)prio, dur, new_cookie(o), timer_cb, o.nohandle ? NULL : &h);
 		if (r != 0) { VIOL(0, "timer-add-failed", "qb_loop_timer_add", "qb_loop_timer_add(%llu ns) returned %d", (unsigned long long)dur, r); break; }
 		o.th = h;
 		timer_add_model(o, prio, dur);
@@ -455,6 +460,7 @@ static void do_op(size_t oi, int from_obj)
 		break; }
 	case K_TIMER_DEL: {
 		if (o.type != O_TIMER) break;
+		if (o.tpend && o.nohandle) break;           // nothing to name it by
 		qb_loop_timer_handle h = o.th;
 		bool use_stale = !o.tpend;
 		if (use_stale && !o.stale.empty()) h = o.stale[(size_t)((uint64_t)op.a[3] % o.stale.size())];
@@ -478,6 +484,7 @@ static void do_op(size_t oi, int from_obj)
 		break; }
 	case K_TIMER_QUERY: {
 		if (o.type != O_TIMER) break;
+		if (o.tpend && o.nohandle) break;
 		qb_loop_timer_handle h = o.th;
 		if (!o.tpend && !o.stale.empty()) h = o.stale[(size_t)((uint64_t)op.a[3] % o.stale.size())];
 		if (h == 0) break;
